@@ -47,6 +47,36 @@ def gen_programs(chk, n, mode, seed_tag):
         yield g.program()
 
 
+def pythonize(prog, r):
+    """Derive a program whose page is ONE component tag with static fills (possibly EMPTY ones), so that the Component.render(kwargs, slots)
+    variant applies: exercises _normalize_slot_fills with str / SafeString / function contents incl. the empty string."""
+    lib = dict(prog["lib"])
+    cname = r.choice(sorted(lib))
+    slots = sorted({t[1] for t in G.flatten(lib[cname]["tpl"]) if t[0] == "slot"})
+    has_default = any(t[0] == "slot" and t[2] for t in G.flatten(lib[cname]["tpl"]))
+    texts = ["", "", "F1", "x.y", " ", "T\n"]
+    c = r.random()
+    if c < 0.25 and has_default:
+        body = [("text", r.choice(texts[2:]))]          # implicit default fill
+    else:
+        cand = list(slots) + (["default"] if has_default and r.random() < 0.3 else []) + (["unknown"] if r.random() < 0.15 else [])
+        r.shuffle(cand)
+        chosen = cand[: r.randint(0, len(cand))]
+        body = []
+        for nm in chosen:
+            t = r.choice(texts)
+            body.append(("fill", ("str", nm), None, None, [("text", t)] if t else []))
+    ctx = dict(prog["ctx"])
+    pvars = [k for k, v in prog["ctx"] if isinstance(v, str)]
+    kw = []
+    for k in ("a", "b"):
+        if r.random() < 0.6:
+            kw.append((k, ("var", r.choice(pvars))) if pvars and r.random() < 0.5 else (k, ("str", "K" + k)))
+    q = dict(prog)
+    q["page"] = [("text", "PAGE:"), ("comp", cname, kw, False, body), ("text", ":END")]
+    return q
+
+
 def run_variants(prog):
     res = {"page": R.render_page(prog, dynamic=False), "dynamic": R.render_page(prog, dynamic=True)}
     if R.python_variant_applicable(prog) is not None:
@@ -141,7 +171,11 @@ def run(tier, seed):
     n = 6000 if tier == "thorough" else 700
     check_programs(chk, corpus_programs(), "corpus")
     for mode in ("isolated", "django"):
-        check_programs(chk, list(gen_programs(chk, n, mode, seed)), mode[:3])
+        progs = list(gen_programs(chk, n, mode, seed))
+        check_programs(chk, progs, mode[:3])
+        # every 3rd program again with a page made of one component tag with static / empty fills: the Component.render variant applies
+        py = [pythonize(p, chk.rng) for p in progs[::3]]
+        check_programs(chk, [p for p in py if R.python_variant_applicable(p) is not None], mode[:3] + "py")
     chk.assumptions = [
         "programs are drawn from the calculus of coq/Core/Syntax.v (text, variables, if/for/with, slots, fills, component tags, provide); "
         "variable names do not collide across scopes here (collisions are C03's subject); the `only` flag is exercised in isolated mode here and in django mode by C03",
